@@ -303,7 +303,7 @@ impl Selection {
                 .get(cursor)
                 .unwrap_or_else(|| panic!("model:act_output: failed to get item {}", cursor));
             let item = current_item.item.clone();
-            item_indices.push(cursor);
+            item_indices.push(current_item.item_idx as usize);
             selected.push(item);
         }
 
@@ -324,6 +324,14 @@ impl Selection {
 
     pub fn is_multi_selection(&self) -> bool {
         self.multi_selection
+    }
+
+    /// the index of the item under the cursor in the input (what `{n}` stands for), not its row in the list
+    pub fn get_current_item_ordinal(&self) -> usize {
+        self.items
+            .get(self.get_current_item_idx())
+            .map(|item| item.item_idx as usize)
+            .unwrap_or(0)
     }
 
     pub fn get_current_item(&self) -> Option<Arc<dyn SkimItem>> {
